@@ -36,6 +36,10 @@ THEOREMS = [
     "C17.repr_injective",
     "C17.incremental",
     "C17.incremental_given_reload",
+    "C17.generate_labels_fresh",
+    "C17.generate_refuses_taken_label",
+    "C17.accepted_labels_pass_add_revision",
+    "C17.stepCall_refused",
     "C17.message_counterexample",
     "C17.message_partial",
     "C17.filename_suffix",
@@ -57,7 +61,8 @@ RULE = (
     "{file_template, truncate_slug_length, one|two version_locations, recursive_version_locations}; version_path none|location|"
     "sub-directory|sibling with a location's name as prefix|unrelated, absolute|relative; arguments: message class, rev_id given|generated, "
     "head selection (default, head id, partial id, label@head, base, heads, several heads, spliced non-head, non-head without splice), "
-    "branch label (fresh|taken|tuple), depends_on (id|partial id|label|several); (b) add_revision on fake revisions over random "
+    "branch label (fresh|taken|tuple), depends_on (id|partial id|label|label@head|label@id|label@partial|head|missing|several); "
+    "after a REFUSED call the directory must reload as the same history and the in-memory map must be unchanged; (b) add_revision on fake revisions over random "
     "and (thorough) all histories with <=3 revisions; a case is non-trivial when the call is accepted and the history has >=2 revisions; "
     "distinct by (view after the call, arguments)"
 )
@@ -233,18 +238,29 @@ def gen_call(rng, st: State, all_taken):
     call["lk"] = lk
     # depends_on (command.merge has none)
     dk = "none"
-    if kind != "merge" and st.ids and rng.random() < 0.35:
+    if kind != "merge" and st.ids and rng.random() < 0.4:
         n = rng.choice([1, 1, 2])
         deps, kinds_ = [], []
         for _ in range(n):
             r = rng.random()
-            if r < 0.25 and st.labels:
+            if r < 0.18 and st.labels:
                 deps.append(rng.choice(sorted(st.labels)))
                 kinds_.append("label")
-            elif r < 0.3:
+            elif r < 0.30 and st.labels:
+                # symbolic forms that get_revision() resolves: label@head, label@<id or partial id of the branch>
+                lab = rng.choice(sorted(st.labels))
+                members = [i for i in st.ids if lab in st.rev[i]["labels"]]
+                if members and rng.random() < 0.5:
+                    ident, how = st.ident_for(rng, rng.choice(members))
+                    deps.append("%s@%s" % (lab, ident))
+                    kinds_.append("label@" + how)
+                else:
+                    deps.append(lab + "@head")
+                    kinds_.append("label@head")
+            elif r < 0.35:
                 deps.append("nosuchrev")
                 kinds_.append("missing")
-            elif r < 0.34:
+            elif r < 0.45:
                 deps.append("head")
                 kinds_.append("head")
             else:
@@ -337,6 +353,33 @@ class fixed_date:
         ScriptDirectory._generate_create_date = self.orig
 
 
+def judge_refused(ctx, env, sd, call, rid, res, inp, before_view):
+    """a refused call must leave the directory loadable and unchanged, on disk and in memory"""
+    left = [os.path.relpath(f, env.dir) for f in res["new_files"]]
+    problems = []
+    try:
+        with warnings.catch_warnings():
+            warnings.simplefilter("ignore")
+            after = G.view(env.fresh().revision_map)
+        if after != before_view:
+            problems.append("the directory reloads as a different history (%s)" % ",".join(G.view_diff(before_view, after)))
+    except Exception as e:  # noqa
+        problems.append("the directory no longer loads (%s: %s)" % (type(e).__name__, str(e)[:120]))
+    if call["kind"] == "generate":
+        try:
+            mem = G.view(sd.revision_map)
+            if mem != before_view:
+                problems.append("the in-memory history was changed (%s)" % ",".join(G.view_diff(before_view, mem)))
+        except Exception as e:  # noqa
+            problems.append("the in-memory history is unusable (%s)" % type(e).__name__)
+    ctx.hist("refused_call_state", "clean" if not problems else "; ".join(p.split(" (")[0] for p in problems))
+    if problems:
+        keys = {r["id"] for r in before_view["revs"]} | {k for k, _ in before_view["labelKeys"]} | {rid}
+        dup = res["err"] == "revisionError" and any(l in keys for l in G._tl(call.get("branch_label")))
+        ctx.fail(inp, "refused: the call was refused (%s) but %s; file left behind: %s" % (res["err"], "; ".join(problems), left),
+                 impl={"error": res.get("exc"), "files": left}, tags=["dup-label"] if dup else [])
+
+
 def check_call(ctx, env, sd, model_m_hist, seg_calls, call, rid, dt, fresh_before, stream):
     """runs one call on the implementation and performs every implementation-side check.
     returns (result dict, fresh_after or None)"""
@@ -349,6 +392,7 @@ def check_call(ctx, env, sd, model_m_hist, seg_calls, call, rid, dt, fresh_befor
         req = None
         unordered = False
         inp["request_error"] = rev_impl.err_name(e)
+    before_view = G.view(fresh_before.revision_map)   # taken now: the call may mutate this very map
     with fixed_date(dt):
         res = G.run_call(env, sd, call, rid)
     ctx.evaluation()
@@ -359,6 +403,8 @@ def check_call(ctx, env, sd, model_m_hist, seg_calls, call, rid, dt, fresh_befor
         if res["err"].startswith("fileDoesNotLoad") and req is not None:
             ctx.fail(inp, "docstring: the generated file does not load (%s)" % res["exc"], impl={"files": [os.path.basename(f) for f in res["new_files"]]},
                      tags=["f12-class"] if in_f12_class(call.get("message"), rid) else [])
+        else:
+            judge_refused(ctx, env, sd, call, rid, res, inp, before_view)
         for f in res["new_files"]:
             os.unlink(f)
         return out, None
@@ -936,6 +982,7 @@ def classify(failure):
     what = failure.get("what", "")
     tags = failure.get("tags", [])
     # (F5, incremental vs reloaded branch_labels, is fixed in /repo: any `incremental:` failure is a violation again)
+    # (F14, a taken branch label refused only after the write, is fixed in /repo: every `refused:` failure is a violation)
     # F12: an accepted request whose file does not load, with a `"""`, backslash or NUL in the pasted texts
     if what.startswith("docstring:") and "f12-class" in tags:
         return "F12-docstring-unescaped"
@@ -963,6 +1010,24 @@ def check_witness(ctx, finding):
                 return "incremental labels %s, reloaded labels %s" % (
                     {r["id"]: r["labels"] for r in inc["revs"]}, {r["id"]: r["labels"] for r in fresh["revs"]})
         return None
+    if finding["id"].startswith("F14"):
+        env = G.Scratch()
+        try:
+            with warnings.catch_warnings():
+                warnings.simplefilter("ignore")
+                sd = env.fresh()
+                sd.generate_revision(w["first"]["id"], "m", branch_labels=w["first"]["label"])
+                try:
+                    sd.generate_revision(w["second"]["id"], "m", branch_labels=w["second"]["label"])
+                    return None
+                except Exception as e1:  # noqa
+                    try:
+                        env.fresh().revision_map._revision_map
+                        return None
+                    except Exception as e2:  # noqa
+                        return "refused with %s: %s; the directory then fails to load with %s" % (type(e1).__name__, e1, type(e2).__name__)
+        finally:
+            env.close()
     if finding["id"].startswith("F12"):
         env = G.Scratch()
         try:
@@ -1007,6 +1072,11 @@ def replay(ctx, case):
         call = inp["call"]
         res = G.run_call(env, sd, call, inp["rid"])
         out = {"impl_error": res.get("err"), "exc": res.get("exc"), "files": [os.path.basename(f) for f in res["new_files"]]}
+        if "err" in res:
+            try:
+                out["directory_after_refused_call"] = {"loads": True, "ids": [r["id"] for r in G.view(env.fresh().revision_map)["revs"]]}
+            except Exception as e:  # noqa
+                out["directory_after_refused_call"] = {"loads": False, "error": "%s: %s" % (type(e).__name__, str(e)[:200])}
         if res.get("script") is not None:
             out["written"] = G.file_attrs(res["script"])
             out["incremental"] = G.view(res["rm"])
